@@ -128,7 +128,7 @@ pub fn actions(b: &Bounds, s: &L) -> Vec<Act> {
 /// what the model expects of a call
 #[derive(Clone, Debug, PartialEq)]
 pub enum Expect {
-    /// the call is rejected (panics); nothing is demanded of the state afterwards
+    /// the call is rejected (panics) and leaves the diagram as it was
     Rejected,
     /// the object is consumed and the call returns None
     ConsumedNone,
@@ -458,7 +458,19 @@ pub fn checked_step(b: &Bounds, s: &L, a: &Act) -> StepOutcome {
 pub fn judge(b: &Bounds, s: &L, a: &Act, exp: Expect, real: Real, after: Result<L, String>) -> StepOutcome {
     let bad = |k: &str, m: String| StepOutcome { next: None, violation: Some((k.to_string(), m)) };
     match (exp, real) {
-        (Expect::Rejected, Real::Panicked(_)) => StepOutcome { next: None, violation: None },
+        (Expect::Rejected, Real::Panicked(_)) => {
+            // rejection is all or nothing: the refused call "touches nothing else" either (two independent readers of
+            // the property - the author of variants C11-e1/e2 and the author of C11-y1 - took it that way)
+            let same = match &after {
+                Ok(x) => x.open.nodes == s.open.nodes && x.open.edges == s.open.edges && x.quot == s.quot && (b.hyper_only || (x.open.s == s.open.s && x.open.t == s.open.t)),
+                Err(_) => false,
+            };
+            if same {
+                StepOutcome { next: None, violation: None }
+            } else {
+                bad("rejected-call-changed-the-diagram", format!("state after the refused call: {:?}", after))
+            }
+        }
         (Expect::Rejected, _) => bad("out-of-range-identifier-accepted", format!("state after: {:?}", after)),
         (_, Real::Panicked(p)) => bad("panic", p),
         (Expect::ConsumedNone, Real::ConsumedNone) => StepOutcome { next: None, violation: None },
